@@ -138,7 +138,7 @@ func htxRules(c *Ctx) {
 	c.Rule("HTX-T", "Escape taint: no unescaped (RAW) value and no dynamic text at all is appended while the lexer is inside a tag or attribute name; inside a double-quoted value and in text only values that passed html.EscapeString or escapeHTML, integers and constants are appended.")
 	c.Rule("HTX-RAW", "A RAW append in text is legal only in the RawHTMLKind outcome behind the IgnoreRaw == false edge, or in the CharacterReferenceKind / SoftLineBreakKind outcomes (parser-restricted leaf kinds, assumed).")
 	c.Rule("HTX-EMIT", "Who may emit markup: a constant containing '<' followed by a letter or '/' (or ending in '<') is appended only inside an emitter that records the buffer length before, consults FilterTag afterwards on every path, and can roll back to write &lt; instead.")
-	c.Rule("ESC-SET", "escapeHTML replaces at least the bytes each lexical context its output lands in requires (text: & and <; double-quoted attribute: & and \"), each by the matching entity.")
+	c.Rule("ESC-SET", "escapeHTML classifies every byte of its source (unit-stride loop over the whole parameter, no skipping) and replaces at least the bytes each lexical context its output lands in requires (text: & and <; double-quoted attribute: & and \"), each by the matching entity.")
 	c.Rule("VOCAB", "Element names are compile-time atom constants at every emitter call site; the element and attribute vocabulary found is listed in the evidence.")
 }
 
@@ -371,6 +371,50 @@ func ruleEscSet(c *Ctx, h *htxEngine) {
 				replaced[byte(k)] = ev.s
 			}
 		}
+	}
+	// ESC-COVER: every byte of src is classified (unit-stride loop over the whole parameter)
+	{
+		var src ssa.Value
+		if len(fn.Params) == 2 {
+			src = fn.Params[1]
+		}
+		n := 0
+		okAll, why := true, ""
+		eachInstr(fn, func(in ssa.Instruction) {
+			ia, ok := in.(*ssa.IndexAddr)
+			if !ok {
+				return
+			}
+			// only element loads that feed the classification (compared with constants)
+			feeds := false
+			for _, r := range refsOf(ia) {
+				if ld, ok := r.(*ssa.UnOp); ok {
+					for _, rr := range refsOf(ld) {
+						if bo, ok := rr.(*ssa.BinOp); ok && (bo.Op == token.EQL || bo.Op == token.NEQ || bo.Op == token.GEQ || bo.Op == token.LSS || bo.Op == token.GTR || bo.Op == token.LEQ) {
+							feeds = true
+						}
+					}
+				}
+			}
+			if !feeds {
+				return
+			}
+			n++
+			if ia.X != src {
+				okAll, why = false, "the bytes classified are not elements of the whole source parameter"
+				return
+			}
+			if ok2, w := unitStrideOver(ia.Index, src); !ok2 {
+				okAll, why = false, w
+			}
+		})
+		if n == 0 {
+			okAll, why = false, "no per-byte classification loop found"
+		}
+		if why == "" {
+			why = "every byte of the source is classified exactly once"
+		}
+		c.Check(okAll, "ESC-SET", "escapeHTML:covers-every-byte", fn.Pos(), why)
 	}
 	var set []string
 	for b, ent := range replaced {
